@@ -2,7 +2,7 @@
    what they promise.  Statements only; proofs in Lemmas/Stats.v. *)
 From Coq Require Import List Reals QArith.
 From FDAV Require Import Base.Num Base.Vec Base.Quad Model.Stats
-  Lemmas.Vec Lemmas.Quad Lemmas.Gram Lemmas.Stats Lemmas.CovShift.
+  Lemmas.Vec Lemmas.Quad Lemmas.Gram Lemmas.Stats Lemmas.CovShift Lemmas.CovScale.
 Import ListNotations.
 Local Open Scope R_scope.
 
@@ -25,6 +25,11 @@ Theorem C10_center_entry : forall m X i j, X <> [] -> Forall (fun r => length r 
   ent (center opsR m X) i j = ent X i j - nth j (mean opsR m X) 0.
 Proof. exact center_entry. Qed.
 Print Assumptions C10_center_entry.
+
+(* centring has no absolute scale: the same curves in other units (times a, any a) are centred to a times the centred curves *)
+Theorem C10_center_units : forall a m X, center opsR m (map (vscale opsR a) X) = map (vscale opsR a) (center opsR m X).
+Proof. exact center_scale. Qed.
+Print Assumptions C10_center_units.
 
 (* normalising by the (oracle) norm r gives unit norm *)
 Theorem C10_normalize_unit_norm : forall x f r, r <> 0 -> r * r = normsq opsR x f ->
